@@ -330,7 +330,8 @@ func (fr *Frame) evalValue(n *vnode, v ssa.Value) *Val {
 		es := x.eng.SortOf(el)
 		comp := memComp(es)
 		m := x.comp(n.heap, comp, memSort(es))
-		zero := &Term{Op: "(as const " + SArray(SInt, es).String() + ")", Args: []*Term{x.zeroOf(el)}, S: SArray(SInt, es)}
+		var zero *Term = &Term{Op: "(as const " + SArray(SInt, es).String() + ")", Args: []*Term{x.zeroOf(el)}, S: SArray(SInt, es)}
+		zero = x.zeroRowEcho(zero, es)
 		n.heap[comp] = x.nameBig(Store(m, arr, zero), comp)
 		return &Val{T: MkSlice(arr, IntLit(0), ln, cp), Ty: i.Type()}
 	case *ssa.MakeMap:
@@ -388,12 +389,31 @@ func (fr *Frame) initObject(n *vnode, ref *Term, t types.Type) {
 		es := x.eng.SortOf(u.Elem())
 		comp := memComp(es)
 		m := x.comp(n.heap, comp, memSort(es))
-		zero := &Term{Op: "(as const " + SArray(SInt, es).String() + ")", Args: []*Term{x.zeroOf(u.Elem())}, S: SArray(SInt, es)}
+		var zero *Term = &Term{Op: "(as const " + SArray(SInt, es).String() + ")", Args: []*Term{x.zeroOf(u.Elem())}, S: SArray(SInt, es)}
+		zero = x.zeroRowEcho(zero, es)
 		n.heap[comp] = x.nameBig(Store(m, ref, zero), comp)
 	default:
 		s := x.eng.SortOf(t)
 		x.writePlace(n.heap, &Place{Comp: cellComp(s, isRefType(t)), Elem: s, Ref: ref, Ty: t}, x.zeroOf(t))
 	}
+}
+
+// zeroRowEcho: in opaque-bit mode name the all-zero byte row and state that all its bits are 0.
+func (x *Exec) zeroRowEcho(zero *Term, es *Sort) *Term {
+	if !(x.opaque["bitAt"] && es.K == KBV && es.W == 8) {
+		return zero
+	}
+	if x.zeroRow != nil {
+		return x.zeroRow
+	}
+	zr := x.eng.FreshVar("zerorow", zero.S)
+	x.vc.Assume(App("=", SBool, zr, zero))
+	B := Var("B?", SInt)
+	q := Forall([]*Term{B}, Not(x.rowBit(zr, B)))
+	q.Pats = [][]*Term{{x.rowBit(zr, B)}}
+	x.vc.Assume(q)
+	x.zeroRow = zr
+	return zr
 }
 
 func basicOf(t types.Type) *types.Basic {
